@@ -75,6 +75,10 @@ namespace nmtools::utl
         {
             // TODO: assert/throw
             if (new_size <= Capacity) {
+                // like std::vector, elements that come into existence are value-initialised
+                for (size_type i=size_; i<new_size; i++) {
+                    buffer[i] = T{};
+                }
                 size_ = new_size;
             }
         }
